@@ -163,10 +163,32 @@ def _pool_init():
     signal.signal(signal.SIGTERM, signal.SIG_DFL)
 
 
+def _pool_worker(conn):
+    _pool_init()
+    try:
+        while True:
+            msg = conn.recv()
+            if msg is None:
+                break
+            idx, packed = msg
+            conn.send((idx,) + _worker_entry(packed))
+    except (EOFError, OSError, KeyboardInterrupt):
+        pass
+    finally:
+        try:
+            sys.stdout.flush()
+            sys.stderr.flush()
+        except Exception:
+            pass
+        os._exit(0)
+
+
 def pmap(fn, tasks, jobs=None, chunksize=1, ordered=False):
     """Run module-level fn over tasks in a fork pool of long-lived workers.
 
-    Yields results.  A worker exception is a HarnessError in the parent."""
+    Yields results.  A worker exception is a HarnessError in the parent; so is a worker that dies (killed, out of
+    memory, crashed interpreter) or a task that exceeds VERIF_TASK_TIMEOUT seconds (default 7200) — the run never
+    waits for ever on a lost task (multiprocessing.Pool does)."""
     tasks = list(tasks)
     jobs = jobs or int(os.environ.get("VERIF_JOBS", "0")) or min(16, os.cpu_count() or 1)
     jobs = max(1, min(jobs, len(tasks) or 1))
@@ -179,15 +201,82 @@ def pmap(fn, tasks, jobs=None, chunksize=1, ordered=False):
             yield r
         return
     import multiprocessing as mp
+    from multiprocessing.connection import wait
 
+    limit = float(os.environ.get("VERIF_TASK_TIMEOUT", "7200"))
     ctx = mp.get_context("fork")
-    with ctx.Pool(jobs, initializer=_pool_init) as pool:
-        it = (pool.imap if ordered else pool.imap_unordered)(_worker_entry, packed, chunksize)
-        for st, r in it:
-            if st == "err":
-                pool.terminate()
-                raise HarnessError("worker failed: " + r)
-            yield r
+    scratch_root()  # before forking, so that every worker uses (and the parent removes) the same root
+    sys.stdout.flush()
+    sys.stderr.flush()
+    workers = {}  # parent connection -> [process, index of the task it is running | None, start time]
+    nxt = 0
+    done = 0
+    buffered = {}
+    emit = 0
+
+    def describe(i):
+        return "task %d of %s.%s: %s" % (i, fn.__module__, fn.__name__, repr(tasks[i])[:400])
+
+    try:
+        for _ in range(jobs):
+            pc, cc = ctx.Pipe()
+            pr = ctx.Process(target=_pool_worker, args=(cc,), daemon=True)
+            pr.start()
+            cc.close()
+            workers[pc] = [pr, None, 0.0]
+        for pc, w in workers.items():
+            if nxt < len(packed):
+                pc.send((nxt, packed[nxt]))
+                w[1], w[2] = nxt, time.time()
+                nxt += 1
+        while done < len(packed):
+            busy = [pc for pc, w in workers.items() if w[1] is not None]
+            ready = wait(busy, timeout=5.0)
+            for pc in ready:
+                w = workers[pc]
+                try:
+                    idx, st, r = pc.recv()
+                except (EOFError, OSError):
+                    w[0].join(2)
+                    raise HarnessError("a worker process died (exit code %r) while running %s" % (w[0].exitcode, describe(w[1])))
+                if st == "err":
+                    raise HarnessError("worker failed in %s: %s" % (describe(idx), r))
+                done += 1
+                if nxt < len(packed):
+                    pc.send((nxt, packed[nxt]))
+                    w[1], w[2] = nxt, time.time()
+                    nxt += 1
+                else:
+                    w[1] = None
+                if ordered:
+                    buffered[idx] = r
+                    while emit in buffered:
+                        yield buffered.pop(emit)
+                        emit += 1
+                else:
+                    yield r
+            now = time.time()
+            for pc, w in workers.items():
+                if w[1] is not None and now - w[2] > limit:
+                    raise HarnessError("no answer within %.0f s (VERIF_TASK_TIMEOUT) from %s" % (limit, describe(w[1])))
+    finally:
+        for pc, w in workers.items():
+            try:
+                if w[1] is None and w[0].is_alive():
+                    pc.send(None)
+            except Exception:
+                pass
+        deadline = time.time() + 2
+        for pc, w in workers.items():
+            if w[1] is None:
+                w[0].join(max(0.0, deadline - time.time()))
+            if w[0].is_alive():
+                w[0].kill()
+                w[0].join(5)
+            try:
+                pc.close()
+            except Exception:
+                pass
 
 
 def pmap_acc(fn, tasks, acc=None, **kw):
